@@ -197,13 +197,28 @@ struct RefTag {
     set: BTreeSet<usize>,
 }
 
+/// one file of the reference: what the program said about it
+#[derive(Clone, Default, PartialEq, Debug)]
+struct RefFile {
+    size: u64,
+    prio: i8,
+    key: Vec<u8>,
+    path: Vec<u8>,          // install only
+    cks: Option<u32>,       // download: set_file_checksum
+    flags: Option<Vec<u8>>, // download: zeros of the flag size at add_file, then set_file_flags
+    ftype: Option<u8>,      // install V2 file-type byte
+}
+
 #[derive(Clone, Default)]
 struct RefModel {
-    files: Vec<(u64, i8)>, // (size, priority)
+    files: Vec<RefFile>,
     tags: Vec<RefTag>,
     dup: bool, // a second add_tag of a live name happened: tag names no longer identify tags
     version: u8,
     base: i8,
+    has_cks: bool,               // download: with_checksums
+    flag_size: u8,               // download: with_flags (accepted)
+    iv2: Option<(u8, u32, u8)>,  // install: V2 extension fields (content_key_size, entry_count_v2, unknown) of the source header
 }
 
 impl RefModel {
@@ -316,6 +331,10 @@ struct Ctx {
     mode: u8,
     ib: Option<InstallManifestBuilder>,
     db: Option<DownloadManifestBuilder>,
+    /// reference of the manifest VALUE produced by the last successful build (what `frommanifest` loads)
+    rf_built: Option<RefModel>,
+    /// bytes of the manifest a builder was loaded from, while no editing call was made since
+    fm_bytes: Option<Vec<u8>>,
     size_ops: Vec<SizeOp>,
     im: Option<InstallManifest>,
     dm: Option<DownloadManifest>,
@@ -400,8 +419,9 @@ fn fail(s: &mut Session, c: &Ctx, sig: &str, msg: String) {
     // once a live tag name was added twice, names no longer identify tags: every check that goes
     // through a name is reported under the one recorded signature; checks that do not depend on
     // tag identity keep their own.
-    const KEEP: [&str; 19] = ["mask-len", "reparse", "u40", "prio-roundtrip", "prio-filter", "file-size", "header", "mask-combine", "file-count", "build-fails",
-        "size-total", "size-entries", "size-build-fails", "size-build-accepts", "utf8-accept", "utf8-reject", "utf8-def", "size-tag-set", "size-total-u64-wrap"];
+    const KEEP: [&str; 22] = ["mask-len", "reparse", "u40", "prio-roundtrip", "prio-filter", "file-size", "header", "mask-combine", "file-count", "build-fails",
+        "size-total", "size-entries", "size-build-fails", "size-build-accepts", "utf8-accept", "utf8-reject", "utf8-def", "size-tag-set", "size-total-u64-wrap",
+        "file-attrs", "prio-eff", "frommanifest-identity"];
     const _: () = ();
     let sig = if c.rf.dup && !KEEP.contains(&sig) { "tag-set-dupname" } else { sig };
     s.oracle_fail(sig, &msg, &c.lines);
@@ -470,6 +490,9 @@ fn exec(s: &mut Session, c: &mut Ctx, line: &str) -> String {
         *c = Ctx::default();
     }
     c.lines.push(line.to_string());
+    if matches!(toks.first(), Some(&("tag" | "file" | "dfile" | "assoc" | "dissoc" | "associdx" | "rmfile" | "rmtag" | "cks" | "flags" | "base" | "setcks" | "setflags"))) {
+        c.fm_bytes = None;
+    }
     s.tally(&format!("op.{}", if toks.first() == Some(&"q") && toks.len() > 1 { format!("q.{}", toks[1]) } else { toks.first().unwrap_or(&"").to_string() }));
     let r = exec_inner(s, c, &toks);
     r.unwrap_or_else(|| "bad-op".into())
@@ -504,6 +527,7 @@ fn exec_inner(s: &mut Session, c: &mut Ctx, toks: &[&str]) -> Option<String> {
             match c.db.take() {
                 Some(b) => {
                     c.db = Some(b.with_checksums(v != 0));
+                    c.rf.has_cks = v != 0;
                     "ok".into()
                 }
                 None => "no-builder".into(),
@@ -515,6 +539,7 @@ fn exec_inner(s: &mut Session, c: &mut Ctx, toks: &[&str]) -> Option<String> {
                 Some(b) => match u8::try_from(v).map_err(|_| DownloadError::UnsupportedFlagSize(255)).and_then(|v| b.with_flags(v)) {
                     Ok(b) => {
                         c.db = Some(b);
+                        c.rf.flag_size = v as u8;
                         "ok".into()
                     }
                     Err(e) => derr(&e),
@@ -570,8 +595,8 @@ fn exec_inner(s: &mut Session, c: &mut Ctx, toks: &[&str]) -> Option<String> {
                 return None;
             }
             let b = c.ib.take()?;
+            c.rf.files.push(RefFile { size: u64::from(size), key: key.to_vec(), path: path.as_bytes().to_vec(), ..RefFile::default() });
             c.ib = Some(b.add_file(path, ContentKey::from_bytes(key), size));
-            c.rf.files.push((u64::from(size), 0));
             "ok".into()
         }
         ["dfile", key, size, prio] => {
@@ -585,7 +610,8 @@ fn exec_inner(s: &mut Session, c: &mut Ctx, toks: &[&str]) -> Option<String> {
                         if size > 0xFF_FFFF_FFFF {
                             fail(s, c, "u40", format!("size {size} > 2^40-1 accepted"));
                         }
-                        c.rf.files.push((size, prio));
+                        let flags = if c.rf.flag_size > 0 { Some(vec![0u8; c.rf.flag_size as usize]) } else { None };
+                        c.rf.files.push(RefFile { size, prio, key: key.to_vec(), flags, ..RefFile::default() });
                         "ok".into()
                     }
                     Err(e) => {
@@ -605,6 +631,7 @@ fn exec_inner(s: &mut Session, c: &mut Ctx, toks: &[&str]) -> Option<String> {
                 Some(b) => match b.set_file_checksum(i, v) {
                     Ok(b) => {
                         c.db = Some(b);
+                        if let Some(f) = c.rf.files.get_mut(i) { f.cks = Some(v); }
                         "ok".into()
                     }
                     Err(e) => derr(&e),
@@ -616,9 +643,10 @@ fn exec_inner(s: &mut Session, c: &mut Ctx, toks: &[&str]) -> Option<String> {
             let i: usize = i.parse().ok()?;
             let f = unhex(f)?;
             match c.db.clone() {
-                Some(b) => match b.set_file_flags(i, f) {
+                Some(b) => match b.set_file_flags(i, f.clone()) {
                     Ok(b) => {
                         c.db = Some(b);
+                        if let Some(rfile) = c.rf.files.get_mut(i) { rfile.flags = Some(f); }
                         "ok".into()
                     }
                     Err(e) => derr(&e),
@@ -803,6 +831,13 @@ fn exec_inner(s: &mut Session, c: &mut Ctx, toks: &[&str]) -> Option<String> {
                         r
                     }
                     Ok(mut m) => {
+                        // reference of the VALUE this build must produce: a builder loaded from a V2
+                        // manifest keeps the V2 header fields and gives every entry a file-type byte
+                        // (its own, 0 for an entry added since)
+                        let mut rb = c.rf.clone();
+                        if rb.iv2.is_some() {
+                            for f in &mut rb.files { f.ftype = Some(f.ftype.unwrap_or(0)); }
+                        }
                         match rest {
                             [] => {}
                             ["v2", cks, ec2, ft] => {
@@ -811,10 +846,29 @@ fn exec_inner(s: &mut Session, c: &mut Ctx, toks: &[&str]) -> Option<String> {
                                 for e in &mut m.entries {
                                     e.file_type = Some(ft);
                                 }
+                                rb.iv2 = Some((cks, ec2, 0));
+                                for f in &mut rb.files { f.ftype = Some(ft); }
+                            }
+                            ["v2x", cks, ec2, ft, unk] => {
+                                let (cks, ec2, ft, unk): (u8, u32, u8, u8) = (cks.parse().ok()?, ec2.parse().ok()?, ft.parse().ok()?, unk.parse().ok()?);
+                                m.header = InstallHeader::new_v2(m.header.tag_count, m.header.entry_count, cks, ec2);
+                                m.header.v2_unknown = Some(unk);
+                                for (i, e) in m.entries.iter_mut().enumerate() {
+                                    e.file_type = Some(((usize::from(ft) + 7 * i) % 256) as u8);
+                                }
+                                rb.iv2 = Some((cks, ec2, unk));
+                                for (i, f) in rb.files.iter_mut().enumerate() { f.ftype = Some(((usize::from(ft) + 7 * i) % 256) as u8); }
                             }
                             _ => return None,
                         }
                         let bytes = m.build().ok()?;
+                        if rest.is_empty() {
+                            if let Some(src) = &c.fm_bytes {
+                                if *src != bytes {
+                                    fail(s, c, "frommanifest-identity", format!("from_manifest + build without any edit serialises to {} but the source manifest was {}", hex(&bytes), hex(src)));
+                                }
+                            }
+                        }
                         c.bytes = bytes.clone();
                         c.dm = None;
                         c.im = InstallManifest::parse(&bytes).ok();
@@ -825,13 +879,27 @@ fn exec_inner(s: &mut Session, c: &mut Ctx, toks: &[&str]) -> Option<String> {
                                     fail(s, c, "reparse", "parse(build(m)) != m".into());
                                 }
                                 for (i, e) in p.entries.iter().enumerate() {
-                                    if c.rf.files.get(i).map(|f| f.0) != Some(u64::from(e.file_size)) {
+                                    if c.rf.files.get(i).map(|f| f.size) != Some(u64::from(e.file_size)) {
                                         fail(s, c, "file-size", format!("entry {i} size {} differs from the reference", e.file_size));
+                                    }
+                                }
+                                // header fields of every version: V1 has none of the extension fields, V2 all three
+                                let got = (p.header.version, p.header.content_key_size, p.header.entry_count_v2, p.header.v2_unknown);
+                                let want = match rb.iv2 { None => (1, None, None, None), Some((k, e, u)) => (2, Some(k), Some(e), Some(u)) };
+                                if got != want {
+                                    fail(s, c, "header", format!("install header (version, content_key_size, entry_count_v2, unknown) = {got:?}, the program configured {want:?}"));
+                                }
+                                for (i, (e, f)) in p.entries.iter().zip(&rb.files).enumerate() {
+                                    if e.path.as_bytes() != &f.path[..] || e.content_key.as_bytes()[..] != f.key[..] || e.file_type != f.ftype {
+                                        fail(s, c, "file-attrs", format!("install entry {i}: path {:?} key {} file type {:?}; the program gave path {:?} key {} file type {:?}",
+                                            e.path, hex(e.content_key.as_bytes()), e.file_type, String::from_utf8_lossy(&f.path), hex(&f.key), f.ftype));
+                                        break;
                                     }
                                 }
                                 let (tags, n) = (p.tags.clone(), p.entries.len());
                                 oracle_manifest(s, c, &tags, n);
                                 c.built_ok = true;
+                                c.rf_built = Some(rb);
                             }
                         }
                         hex(&bytes)
@@ -854,6 +922,11 @@ fn exec_inner(s: &mut Session, c: &mut Ctx, toks: &[&str]) -> Option<String> {
                             derr(&e)
                         }
                         Ok(bytes) => {
+                            if let Some(src) = &c.fm_bytes {
+                                if *src != bytes {
+                                    fail(s, c, "frommanifest-identity", format!("from_manifest + build without any edit serialises to {} but the source manifest was {}", hex(&bytes), hex(src)));
+                                }
+                            }
                             c.bytes = bytes.clone();
                             c.im = None;
                             c.dm = DownloadManifest::parse(&bytes).ok();
@@ -864,7 +937,7 @@ fn exec_inner(s: &mut Session, c: &mut Ctx, toks: &[&str]) -> Option<String> {
                                         fail(s, c, "reparse", "parse(build(m)) != m".into());
                                     }
                                     for (i, e) in p.entries.iter().enumerate() {
-                                        let want = c.rf.files.get(i).copied();
+                                        let want = c.rf.files.get(i).map(|f| (f.size, f.prio));
                                         if want.map(|f| f.0) != Some(e.file_size.as_u64()) {
                                             fail(s, c, "u40", format!("entry {i}: 40-bit size {} after round trip, added {:?}", e.file_size.as_u64(), want));
                                         }
@@ -875,9 +948,22 @@ fn exec_inner(s: &mut Session, c: &mut Ctx, toks: &[&str]) -> Option<String> {
                                     if p.header.version() != c.rf.version || p.header.base_priority() != c.rf.base {
                                         fail(s, c, "header", format!("version/base priority {}/{} differ from configuration {}/{}", p.header.version(), p.header.base_priority(), c.rf.version, c.rf.base));
                                     }
+                                    // the other header fields of every version: checksum switch (V1+), flag size (V2+)
+                                    let want_fs = if c.rf.version >= 2 { c.rf.flag_size } else { 0 };
+                                    if p.header.has_checksum() != c.rf.has_cks || p.header.flag_size() != want_fs {
+                                        fail(s, c, "header", format!("checksum switch/flag size {}/{} differ from configuration {}/{}", p.header.has_checksum(), p.header.flag_size(), c.rf.has_cks, want_fs));
+                                    }
+                                    for (i, (e, f)) in p.entries.iter().zip(&c.rf.files).enumerate() {
+                                        if e.encoding_key.as_bytes()[..] != f.key[..] || e.checksum != f.cks || e.flags != f.flags {
+                                            fail(s, c, "file-attrs", format!("download entry {i}: key {} checksum {:?} flags {:?}; the program gave key {} checksum {:?} flags {:?}",
+                                                hex(e.encoding_key.as_bytes()), e.checksum, e.flags, hex(&f.key), f.cks, f.flags));
+                                            break;
+                                        }
+                                    }
                                     let (tags, n) = (p.tags.clone(), p.entries.len());
                                     oracle_manifest(s, c, &tags, n);
                                     c.built_ok = true;
+                                    c.rf_built = Some(c.rf.clone());
                                 }
                             }
                             hex(&bytes)
@@ -887,6 +973,54 @@ fn exec_inner(s: &mut Session, c: &mut Ctx, toks: &[&str]) -> Option<String> {
             },
             _ => return None,
         },
+        ["frommanifest"] => {
+            // builder-as-mutator: load a builder from the manifest parsed back after the last build.
+            // The reference of the loaded builder is the reference of the value that was built.
+            let r = match c.mode {
+                1 => match &c.im {
+                    Some(m) => { c.ib = Some(InstallManifestBuilder::from_manifest(m)); "ok" }
+                    None => "no-manifest",
+                },
+                2 => match &c.dm {
+                    Some(m) => { c.db = Some(DownloadManifestBuilder::from_manifest(m)); "ok" }
+                    None => "no-manifest",
+                },
+                _ => return None,
+            };
+            if r == "ok" {
+                if let Some(rb) = c.rf_built.clone() {
+                    c.rf = rb;
+                }
+                c.fm_bytes = Some(c.bytes.clone());
+                s.tally(&format!("frommanifest.{}", match c.mode {
+                    1 => format!("install.v{}", if c.rf.iv2.is_some() { 2 } else { 1 }),
+                    _ => format!("download.v{}.fs{}.cks{}.base-{}", c.rf.version, c.rf.flag_size, u8::from(c.rf.has_cks), match c.rf.base { i8::MIN..=-1 => "neg", 0 => "zero", _ => "pos" }),
+                }));
+            }
+            r.into()
+        }
+        ["q", "hdr"] => match (&c.im, &c.dm) {
+            (Some(m), _) => {
+                let ft: Vec<String> = m.entries.iter().map(|e| e.file_type.map_or("n".to_string(), |f| f.to_string())).collect();
+                let ext = match (m.header.content_key_size, m.header.entry_count_v2, m.header.v2_unknown) {
+                    (Some(k), Some(e), Some(u)) => format!(" cks={k} ec2={e} unk={u}"),
+                    (None, None, None) => String::new(),
+                    _ => " ext=partial".into(),
+                };
+                format!("v={}{ext} ft={}", m.header.version, if ft.is_empty() { "-".into() } else { ft.join(",") })
+            }
+            (None, Some(m)) => format!("v={} cks={} fs={} base={}", m.header.version(), u8::from(m.header.has_checksum()), m.header.flag_size(), m.header.base_priority()),
+            _ => "no-manifest".into(),
+        },
+        ["q", "eff"] => {
+            let m = match &c.dm { Some(m) => m, None => return Some("no-manifest".into()) };
+            let got: Vec<i8> = m.entries.iter().map(|e| e.effective_priority(&m.header)).collect();
+            let want: Vec<i8> = c.rf.files.iter().map(|f| c.rf.eff(f.prio)).collect();
+            if got != want {
+                fail(s, c, "prio-eff", format!("effective priorities {got:?}, expected {want:?} (priority - base {} saturating, version {})", c.rf.base, c.rf.version));
+            }
+            if got.is_empty() { "-".into() } else { got.iter().map(|p| p.to_string()).collect::<Vec<_>>().join(",") }
+        }
         ["reparse"] => match c.mode {
             1 => match &c.im {
                 Some(m) => format!("ok tags={} entries={} same={}", m.tags.len(), m.entries.len(), u8::from(m.build().ok().as_deref() == Some(&c.bytes[..]))),
@@ -978,7 +1112,7 @@ fn exec_inner(s: &mut Session, c: &mut Ctx, toks: &[&str]) -> Option<String> {
                 _ => return Some("no-manifest".into()),
             };
             if !names.is_empty() {
-                let want: u64 = c.rf.all_of(&names).unwrap_or_default().iter().map(|&i| c.rf.files[i].0).sum();
+                let want: u64 = c.rf.all_of(&names).unwrap_or_default().iter().map(|&i| c.rf.files[i].size).sum();
                 if got != want {
                     fail(s, c, "size-by-tags", format!("size for {names:?}: got {got}, sum over the associated intersection {want}"));
                 }
@@ -991,7 +1125,7 @@ fn exec_inner(s: &mut Session, c: &mut Ctx, toks: &[&str]) -> Option<String> {
                 (None, Some(m)) => m.total_download_size(),
                 _ => return Some("no-manifest".into()),
             };
-            let want: u64 = c.rf.files.iter().map(|f| f.0).sum();
+            let want: u64 = c.rf.files.iter().map(|f| f.size).sum();
             if got != want {
                 fail(s, c, "size-sum", format!("total size {got}, sum of added sizes {want}"));
             }
@@ -1003,7 +1137,7 @@ fn exec_inner(s: &mut Session, c: &mut Ctx, toks: &[&str]) -> Option<String> {
             let m = match &c.dm { Some(m) => m, None => return Some("no-manifest".into()) };
             let got: Vec<usize> = m.entries_by_priority(pc).iter().map(|p| p.0).collect();
             let class = |p: i8| match p { i8::MIN..=-1 => 0, 0 => 1, 1..=2 => 2, 3..=5 => 3, _ => 4 };
-            let want: Vec<usize> = (0..c.rf.files.len()).filter(|&i| class(c.rf.eff(c.rf.files[i].1)) == cat).collect();
+            let want: Vec<usize> = (0..c.rf.files.len()).filter(|&i| class(c.rf.eff(c.rf.files[i].prio)) == cat).collect();
             if got != want {
                 fail(s, c, "prio-filter", format!("priority category {cat}: got {}, expected {}", idx_list(&got), idx_list(&want)));
             }
@@ -1013,7 +1147,7 @@ fn exec_inner(s: &mut Session, c: &mut Ctx, toks: &[&str]) -> Option<String> {
             let (lo, hi): (i8, i8) = (lo.parse().ok()?, hi.parse().ok()?);
             let m = match &c.dm { Some(m) => m, None => return Some("no-manifest".into()) };
             let got: Vec<usize> = m.entries_by_priority_range(lo, hi).iter().map(|p| p.0).collect();
-            let want: Vec<usize> = (0..c.rf.files.len()).filter(|&i| { let e = c.rf.eff(c.rf.files[i].1); lo <= e && e <= hi }).collect();
+            let want: Vec<usize> = (0..c.rf.files.len()).filter(|&i| { let e = c.rf.eff(c.rf.files[i].prio); lo <= e && e <= hi }).collect();
             if got != want {
                 fail(s, c, "prio-filter", format!("priority range {lo}..={hi}: got {}, expected {}", idx_list(&got), idx_list(&want)));
             }
@@ -1022,7 +1156,7 @@ fn exec_inner(s: &mut Session, c: &mut Ctx, toks: &[&str]) -> Option<String> {
         ["q", "ess"] => {
             let m = match &c.dm { Some(m) => m, None => return Some("no-manifest".into()) };
             let got = m.essential_download_size();
-            let want: u64 = c.rf.files.iter().filter(|f| c.rf.eff(f.1) <= 0).map(|f| f.0).sum();
+            let want: u64 = c.rf.files.iter().filter(|f| c.rf.eff(f.prio) <= 0).map(|f| f.size).sum();
             if got != want {
                 fail(s, c, "size-sum", format!("essential size {got}, sum over effective priority <= 0: {want}"));
             }
@@ -1451,6 +1585,21 @@ impl Gen<'_> {
         let steps = self.rng.range(0, (max_files * 3 + max_tags * 2) as u64) as usize;
         let target_files = self.rng.range(0, max_files as u64) as usize;
         let target_tags = self.rng.range(0, max_tags as u64) as usize;
+        self.random_steps(download, cks, flags, &pool, &mut live, steps, target_files, target_tags, allow_dup);
+        self.send("masks".into());
+        if !download && self.rng.chance(1, 4) {
+            let line_ = format!("build v2 {} {} {}", self.rng.below(256), self.rng.next() & 0xFFFF_FFFF, self.rng.below(256));
+            self.send(line_);
+        } else {
+            self.send("build".into());
+        }
+        self.queries(download, &pool, true);
+        self.end_case();
+    }
+
+    /// `steps` random builder calls (the body of `random_case`)
+    #[allow(clippy::too_many_arguments)]
+    fn random_steps(&mut self, download: bool, cks: bool, flags: u8, pool: &[String], live: &mut Vec<String>, steps: usize, target_files: usize, target_tags: usize, allow_dup: bool) {
         for step in 0..steps {
             let n = self.c.rf.files.len();
             let roll = self.rng.below(100);
@@ -1459,7 +1608,7 @@ impl Gen<'_> {
             } else if roll < 40 {
                 if live.len() < target_tags || self.rng.chance(1, 10) {
                     let cand: Vec<&String> = pool.iter().filter(|p| allow_dup && self.c.rf.dup || !live.contains(p)).collect();
-                    let name = if allow_dup && !live.is_empty() && self.rng.chance(1, 4) { self.rng.pick(&live).clone() }
+                    let name = if allow_dup && !live.is_empty() && self.rng.chance(1, 4) { self.rng.pick(live).clone() }
                                else if cand.is_empty() { continue } else { (*self.rng.pick(&cand)).clone() };
                     let line_ = format!("tag {name} {}", TAG_TYPES[self.rng.below(17) as usize]);
                     self.send(line_);
@@ -1468,7 +1617,7 @@ impl Gen<'_> {
             } else if roll < 75 {
                 // associate: mostly valid, sometimes out of range / unknown tag
                 let i = if n > 0 && self.rng.chance(19, 20) { self.rng.below(n as u64) as usize } else { n + self.rng.below(3) as usize };
-                let name = if !live.is_empty() && self.rng.chance(19, 20) { self.rng.pick(&live).clone() } else { self.rng.pick(&pool).clone() };
+                let name = if !live.is_empty() && self.rng.chance(19, 20) { self.rng.pick(live).clone() } else { self.rng.pick(pool).clone() };
                 if !download && self.rng.chance(1, 12) && !self.c.rf.dup {
                     let ti = self.rng.below(self.c.rf.tags.len() as u64 + 2);
                     self.send(format!("associdx {i} {ti}"));
@@ -1477,7 +1626,7 @@ impl Gen<'_> {
                 }
             } else if roll < 83 {
                 let i = if n > 0 && self.rng.chance(9, 10) { self.rng.below(n as u64) as usize } else { n + self.rng.below(20) as usize };
-                let name = if !live.is_empty() && self.rng.chance(9, 10) { self.rng.pick(&live).clone() } else { self.rng.pick(&pool).clone() };
+                let name = if !live.is_empty() && self.rng.chance(9, 10) { self.rng.pick(live).clone() } else { self.rng.pick(pool).clone() };
                 self.send(format!("dissoc {i} {name}"));
             } else if roll < 93 {
                 let k = if n > 0 && self.rng.chance(9, 10) {
@@ -1485,7 +1634,7 @@ impl Gen<'_> {
                 } else { n + self.rng.below(2) as usize };
                 self.send(format!("rmfile {k}"));
             } else if roll < 97 {
-                let name = if !live.is_empty() && self.rng.chance(4, 5) { self.rng.pick(&live).clone() } else { self.rng.pick(&pool).clone() };
+                let name = if !live.is_empty() && self.rng.chance(4, 5) { self.rng.pick(live).clone() } else { self.rng.pick(pool).clone() };
                 let r = self.send(format!("rmtag {name}"));
                 if r == "ok" && self.c.rf.tag(&name_of(&name).unwrap_or_default()).is_none() {
                     live.retain(|x| *x != name);
@@ -1497,14 +1646,200 @@ impl Gen<'_> {
                 self.send("masks".into());
             }
         }
-        self.send("masks".into());
-        if !download && self.rng.chance(1, 4) {
-            let line_ = format!("build v2 {} {} {}", self.rng.below(256), self.rng.next() & 0xFFFF_FFFF, self.rng.below(256));
-            self.send(line_);
-        } else {
-            self.send("build".into());
+    }
+
+
+    // ------------------------------------------------------------ builder as mutator (from_manifest)
+
+    /// priority selections of the re-parsed download manifest around the category boundaries of the
+    /// EFFECTIVE priority (priority - base): every entry point by priority + the header
+    fn prio_queries(&mut self, base: i64) {
+        self.send("q hdr".into());
+        self.send("q eff".into());
+        for cat in 0..5 {
+            self.send(format!("q prio {cat}"));
         }
-        self.queries(download, &pool, true);
+        let cl = |x: i64| x.clamp(-128, 127);
+        for (lo, hi) in [(-128i64, -1i64), (0, 0), (1, 2), (3, 5), (6, 127), (-128, 127), (-128, 0)] {
+            self.send(format!("q prange {lo} {hi}"));
+            // the same window in raw priorities (what a base-less reading of the header would select)
+            if base != 0 {
+                self.send(format!("q prange {} {}", cl(lo + base), cl(hi + base)));
+            }
+        }
+        self.send("q ess".into());
+        self.send("q total".into());
+    }
+
+    /// one edit program on a loaded builder: 0 add file + associate, 1 remove a file, 2 remove a tag /
+    /// add a tag / associate with it, 3 dissociate / associate, 4 all of them
+    fn mut_edits(&mut self, download: bool, variant: usize, cks: bool, flags: u8, names: &[String]) {
+        let n = self.c.rf.files.len();
+        if variant == 0 || variant == 4 {
+            if download {
+                let k = self.key();
+                let prio = self.c.rf.base as i64 + [0i64, 1, 3, 6, -1][self.rng.below(5) as usize];
+                if self.send(format!("dfile {k} {} {}", 5000 + n, prio.clamp(-128, 127))) == "ok" {
+                    let i = self.c.rf.files.len() - 1;
+                    if cks { let v = self.rng.next() & 0xFFFF_FFFF; self.send(format!("setcks {i} {v}")); }
+                    if flags > 0 { let f = self.rng.bytes(flags as usize); self.send(format!("setflags {i} {}", hex(&f))); }
+                }
+            } else {
+                let k = self.key();
+                self.send(format!("file {} {k} {}", hex(format!("new/{n}.bin").as_bytes()), 5000 + n));
+            }
+            let i = self.c.rf.files.len() - 1;
+            self.send(format!("assoc {i} {}", names[0]));
+        }
+        if (variant == 1 || variant == 4) && n > 0 {
+            let k = match self.rng.below(3) { 0 => 0, 1 => n - 1, _ => (n - 1).min(7) };
+            self.send(format!("rmfile {k}"));
+        }
+        if variant == 2 || variant == 4 {
+            self.send(format!("rmtag {}", names[1]));
+            let line_ = format!("tag {} {}", names[2], TAG_TYPES[self.rng.below(17) as usize]);
+            self.send(line_);
+            if !self.c.rf.files.is_empty() {
+                self.send(format!("assoc 0 {}", names[2]));
+                let last = self.c.rf.files.len() - 1;
+                self.send(format!("assoc {last} {}", names[2]));
+            }
+        }
+        if (variant == 3 || variant == 4) && !self.c.rf.files.is_empty() {
+            self.send(format!("dissoc 0 {}", names[0]));
+            let j = self.c.rf.files.len() / 2;
+            self.send(format!("assoc {j} {}", names[0]));
+        }
+        self.send("masks".into());
+    }
+
+    /// download builder as mutator: version x checksum switch x flag size x base priority, every
+    /// header field non-default; build, load with from_manifest, rebuild without an edit (the
+    /// bytes must not change), load again, edit, rebuild; all selections after every generation
+    fn mutator_download(&mut self, v: u64, cks: bool, fs: u8, base: i64, n: usize, variant: usize) {
+        self.send(format!("begin download {v}"));
+        if cks { self.send("cks 1".into()); }
+        if v >= 2 { self.send(format!("flags {fs}")); }
+        if v >= 3 { self.send(format!("base {base}")); }
+        self.s.tally(&format!("mut.download.v{v}.fs{fs}.base-{}", if base < 0 { "neg" } else if base == 0 { "zero" } else { "pos" }));
+        let names = [hex(b"Windows"), hex(b"enUS"), hex(b"Extra")];
+        let line_ = format!("tag {} 1", names[0]);
+        self.send(line_);
+        // priorities on both sides of every category boundary of the effective priority
+        let around = [-128i64, base - 2, base - 1, base, base + 1, base + 2, base + 3, base + 5, base + 6, 127, -1, 0, 1, 3, 6];
+        for i in 0..n {
+            let prio = if i < around.len() { around[i] } else { self.rng.below(256) as i64 - 128 }.clamp(-128, 127);
+            let size = match self.rng.below(10) { 0 => 0, 1 => 0x1_0000_0000, 2 => 0xFF_FFFF_FFFF, _ => 1000 + i as u64 };
+            let k = self.key();
+            if self.send(format!("dfile {k} {size} {prio}")) == "ok" {
+                if cks { let c_ = self.rng.next() & 0xFFFF_FFFF; self.send(format!("setcks {i} {c_}")); }
+                if fs > 0 && i % 3 != 2 { let f = self.rng.bytes(fs as usize); self.send(format!("setflags {i} {}", hex(&f))); }
+            }
+            if i == n / 2 {
+                let line_ = format!("tag {} 2", names[1]);
+                self.send(line_);
+            }
+        }
+        if n == 0 { let line_ = format!("tag {} 2", names[1]); self.send(line_); }
+        for i in 0..self.c.rf.files.len() {
+            if i % 2 == 0 { self.send(format!("assoc {i} {}", names[0])); }
+            if i % 3 == 0 || i + 1 == self.c.rf.files.len() { self.send(format!("assoc {i} {}", names[1])); }
+        }
+        self.send("build".into());
+        self.prio_queries(base);
+        // generation 2: load, rebuild untouched
+        self.send("frommanifest".into());
+        self.send("build".into());
+        self.prio_queries(base);
+        self.send("q tags".into());
+        // generation 3: load, edit, rebuild
+        self.send("frommanifest".into());
+        self.mut_edits(true, variant, cks, fs, &names);
+        self.send("build".into());
+        self.prio_queries(base);
+        let nm: Vec<String> = names.to_vec();
+        self.queries(true, &nm, false);
+        self.end_case();
+    }
+
+    /// install builder as mutator: V1 and V2 sources with every V2 header field and file-type byte
+    /// non-default
+    #[allow(clippy::too_many_arguments)]
+    fn mutator_install(&mut self, n: usize, v2: bool, cks: u8, ec2: u32, ft: u8, unk: u8, variant: usize) {
+        self.send("begin install".into());
+        self.s.tally(&format!("mut.install.v{}", if v2 { 2 } else { 1 }));
+        let names = [hex(b"Windows"), hex(b"enUS"), hex(b"Extra")];
+        let line_ = format!("tag {} 1", names[0]);
+        self.send(line_);
+        for i in 0..n {
+            self.add_file(false, false, 0);
+            if i == n / 2 { let line_ = format!("tag {} 2", names[1]); self.send(line_); }
+        }
+        if n == 0 { let line_ = format!("tag {} 2", names[1]); self.send(line_); }
+        for i in 0..n {
+            if i % 2 == 0 { self.send(format!("assoc {i} {}", names[0])); }
+            if i % 3 == 0 || i + 1 == n { self.send(format!("assoc {i} {}", names[1])); }
+        }
+        if v2 { self.send(format!("build v2x {cks} {ec2} {ft} {unk}")); } else { self.send("build".into()); }
+        self.send("q hdr".into());
+        self.send("q tags".into());
+        // generation 2: load, rebuild untouched
+        self.send("frommanifest".into());
+        self.send("build".into());
+        self.send("q hdr".into());
+        self.send("q tags".into());
+        self.send("q total".into());
+        // generation 3: load, edit, rebuild
+        self.send("frommanifest".into());
+        self.mut_edits(false, variant, false, 0, &names);
+        self.send("build".into());
+        self.send("q hdr".into());
+        let nm: Vec<String> = names.to_vec();
+        self.queries(false, &nm, false);
+        self.end_case();
+    }
+
+    /// random program, build, from_manifest, random program on the loaded builder, build
+    fn mutator_random(&mut self, download: bool, max_files: usize, max_tags: usize) {
+        let (cks, flags) = self.begin(download);
+        let pool: Vec<String> = (0..max_tags.max(1)).map(|i| {
+            let base = ["Windows", "OSX", "x86_64", "enUS", "deDE", "t", "é", "Alt", "", "HighRes"];
+            let s = if i < base.len() { base[i].to_string() } else { format!("tag{i}") };
+            hex(s.as_bytes())
+        }).collect();
+        let mut live: Vec<String> = vec![];
+        let gens = self.rng.range(2, 3);
+        for g in 0..gens {
+            let steps = self.rng.range(0, (max_files * 2 + max_tags * 2) as u64) as usize;
+            let target_files = self.rng.range(0, max_files as u64) as usize;
+            let target_tags = self.rng.range(1, max_tags as u64) as usize;
+            self.random_steps(download, cks, flags, &pool, &mut live, steps, target_files, target_tags, false);
+            if download && g > 0 && self.c.rf.version == 3 && self.rng.chance(1, 4) {
+                // a configuration setter on the loaded builder
+                let b = self.rng.below(256) as i64 - 128;
+                self.send(format!("base {b}"));
+            }
+            self.send("masks".into());
+            if !download && self.rng.chance(1, 3) {
+                let line_ = format!("build v2x {} {} {} {}", self.rng.below(256), self.rng.next() & 0xFFFF_FFFF, self.rng.below(256), self.rng.below(256));
+                self.send(line_);
+            } else {
+                self.send("build".into());
+            }
+            self.send("q hdr".into());
+            if download { let b = i64::from(self.c.rf.base); self.prio_queries(b); }
+            if g + 1 < gens {
+                if self.send("frommanifest".into()) != "ok" { break; }
+                live = self.c.rf.tags.iter().map(|t| hex(t.name.as_bytes())).collect();
+                if self.rng.chance(1, 3) {
+                    // untouched rebuild first
+                    self.send("build".into());
+                    self.send("q hdr".into());
+                    self.send("frommanifest".into());
+                }
+            }
+        }
+        self.queries(download, &pool, false);
         self.end_case();
     }
 
@@ -1732,7 +2067,7 @@ fn main() {
     let args = Args::parse();
     quiet_panics();
     let mut s = Session::new(&args.out);
-    s.rule = "builder programs (add tag / add file / associate (by name, by index) / dissociate / remove file / remove tag, valid and rejected arguments) on InstallManifestBuilder, DownloadManifestBuilder (versions 1-3, checksums, flag sizes 0-4, base priority and priorities over -128..=127, sizes 0, 2^32-1, 2^32, 2^40-1, 2^40) and SizeManifestBuilder (mask part; whole builder: version 0-3, key size 0/1/9/16/17, esize width 0-9, tag_count setter, esizes at the width / 40-bit-total / u64 boundaries, serialise + re-parse + totals + truncations); hand-framed install/download/size manifests with well-formed and malformed UTF-8 names and paths, the UTF-8 validator on all 1-byte strings, 2-byte strings with a non-ASCII lead, table 3-7 boundaries and random strings; boundary family: every file count 0..=70 x removal positions {none, 0, 7, 8, 9, n-9, n-8, n-2, n-1} (every position for n <= 18) for install V1/V2 and download; random programs up to 70 files / 20 tags (thorough: also up to 300 files); after each build: re-parse, independent bit reader, per-tag / all-of / any-of / size / priority queries, truncated inputs; non-trivial = the program reached a successful build with at least one tag and one file; distinct = full program text".into();
+    s.rule = "builder programs (add tag / add file / associate (by name, by index) / dissociate / remove file / remove tag, valid and rejected arguments) on InstallManifestBuilder, DownloadManifestBuilder (versions 1-3, checksums, flag sizes 0-4, base priority and priorities over -128..=127, sizes 0, 2^32-1, 2^32, 2^40-1, 2^40) and SizeManifestBuilder (mask part; whole builder: version 0-3, key size 0/1/9/16/17, esize width 0-9, tag_count setter, esizes at the width / 40-bit-total / u64 boundaries, serialise + re-parse + totals + truncations); hand-framed install/download/size manifests with well-formed and malformed UTF-8 names and paths, the UTF-8 validator on all 1-byte strings, 2-byte strings with a non-ASCII lead, table 3-7 boundaries and random strings; boundary family: every file count 0..=70 x removal positions {none, 0, 7, 8, 9, n-9, n-8, n-2, n-1} (every position for n <= 18) for install V1/V2 and download; random programs up to 70 files / 20 tags (thorough: also up to 300 files); after each build: re-parse, independent bit reader, per-tag / all-of / any-of / size / priority queries, truncated inputs; builder as mutator (from_manifest on the re-parsed manifest): download V1/V2/V3 x checksum switch x flag size 0-4 x base priority {-128,-127,-10,-5,-1,0,1,4,100,126,127} (V3) with non-zero entry flags/checksums and priorities on both sides of every effective-priority category boundary, install V1 and V2 (content_key_size {0,16,20,255}, entry_count_v2 {0,n,2^32-1}, unknown {0,1,255}, per-entry file-type bytes) x file counts {0,1,7,8,9,16,17}: build, load, rebuild without an edit (bytes must be identical), load, edit (add file + associate / remove file / remove + add tag / dissociate + associate / all), rebuild, and random two- and three-generation programs; after every generation the header fields, per-file attributes, effective priorities and every by-tag and by-priority selection are compared with the reference of the ORIGINAL program; non-trivial = the program reached a successful build with at least one tag and one file; distinct = full program text".into();
     let mut rng = Rng::new(args.seed);
 
     if let Some(p) = &args.replay {
@@ -1844,6 +2179,43 @@ fn main() {
         g.send("cks 0".into());
         g.send("build".into());
         g.end_case();
+    }
+    // 5. builder as mutator: from_manifest -> (no edit | edits) -> build -> serialise -> parse, every
+    //    version x every version-specific header field off its default (appended after the older
+    //    sections so that their random streams are unchanged)
+    {
+        let bases: [i64; 11] = [-128, -127, -10, -5, -1, 0, 1, 4, 100, 126, 127];
+        let ns = [9usize, 1, 7, 8, 15, 16, 17, 0, 12];
+        let mut idx = 0usize;
+        for v in 1..=3u64 {
+            let fss: &[u8] = if v == 1 { &[0] } else { &[0, 1, 2, 3, 4] };
+            let bs: &[i64] = if v == 3 { &bases } else { &[0] };
+            for &fs in fss {
+                for &b in bs {
+                    // quick: both checksum settings for V1/V2, alternating for V3; thorough: all
+                    let ckss: &[bool] = if thorough || v < 3 { &[false, true] } else if idx % 2 == 0 { &[false] } else { &[true] };
+                    for &cks in ckss {
+                        let n = if b != 0 && idx % 3 == 0 { 9 } else { ns[idx % ns.len()] };
+                        g.mutator_download(v, cks, fs, b, n, idx % 5);
+                        idx += 1;
+                    }
+                }
+            }
+        }
+        // the documented presets: essential_content() = V3 base -10, streaming_optimized() = V3 flags 1 base -5
+        g.mutator_download(3, false, 0, -10, 9, 0);
+        g.mutator_download(3, true, 1, -5, 9, 4);
+        let ckss = [0u8, 16, 20, 255];
+        let unks = [0u8, 1, 255];
+        let fts = [0u8, 1, 200, 255];
+        for i in 0..(if thorough { 252 } else { 42 }) {
+            let n = [0usize, 1, 7, 8, 9, 16, 17][i % 7];
+            let ec2 = [0u32, n as u32, 0xFFFF_FFFF][(i / 3) % 3];
+            g.mutator_install(n, i % 4 != 0, ckss[(i / 2) % 4], ec2, fts[(i / 5) % 4], unks[i % 3], i % 5);
+        }
+        for r in 0..(if thorough { 3000 } else { 120 }) {
+            g.mutator_random(r % 2 == 1, if r % 3 == 0 { 40 } else { 12 }, if r % 5 == 0 { 12 } else { 5 });
+        }
     }
     s.finish();
 }
